@@ -167,7 +167,7 @@ package syntax
 //@   assigns fresh-only
 //@   returns (f, err)
 //@   requires arg != nil
-//@   ensures[C14] noerr: err == nil
+//@   ensures[C14] noerr: (err == nil) == (arg is rel.Number)
 
 //@ func stdSeqRepeat$1(ctx, arg)
 //@   tags C14, C10
